@@ -124,6 +124,27 @@ func runC12(c *Ctx) {
 		c.check(good, "split@MixMatcher", f.Pos(), "the pattern is the text after the first ':' (or the whole string)", "splitTypeAndPattern alters the pattern")
 	}
 
+	{
+		// the normaliser itself: lower-casing of the dot-trimmed string on every path (no conditional bypass)
+		good := true
+		n := 0
+		for _, r := range returnsOf(norm) {
+			n++
+			v := returnedValues(r)[0]
+			cl, ok := v.(*ssa.Call)
+			if !ok || callName(cl) != "strings.ToLower" {
+				good = false
+				continue
+			}
+			in, ok := cl.Call.Args[0].(*ssa.Call)
+			if !ok || callName(in) != relDomain+".TrimDot" || in.Call.Args[0] != ssa.Value(norm.Params[0]) {
+				good = false
+			}
+		}
+		c.check(good && n == 1, "normaliser-shape", norm.Pos(), "NormalizeDomain = strings.ToLower(TrimDot(s)) on its only path",
+			"NormalizeDomain is not strings.ToLower(TrimDot(s)) on every path (a fast path or custom case folding cannot be checked here): rules and names may be folded differently")
+	}
+
 	// ---------------------------------------------------------------- R2
 	c.rule("R2", "domain rules and names are tokenised by the same reverse label scanner, separator '.' only", 3)
 	scanUse := func(f *ssa.Function) bool {
